@@ -678,3 +678,203 @@ Proof.
   - exfalso. destruct R as [_ N]. destruct B as [I [_ [M _]]]. exact (N t I M).
   - exfalso. destruct R as [_ N]. destruct B as [I [_ [M _]]]. exact (N t I M).
 Qed.
+
+(* ------------------------------------------------ agreement with the model implies the property:
+   the whole property judgement of a router case is a CONSEQUENCE of [r_agrees] *)
+
+Lemma nodup_keys_functional : forall (l : params), NoDup (map fst l) ->
+  forall a b b', In (a, b) l -> In (a, b') l -> b = b'.
+Proof.
+  induction l as [|[x y] l IH]; intros NDl a b b' H1 H2; [contradiction|].
+  cbn in NDl. apply NoDup_cons_iff in NDl. destruct NDl as [NI NDl].
+  destruct H1 as [H1|H1], H2 as [H2|H2]; try congruence.
+  - inversion H1; subst. exfalso. apply NI. change a with (fst (a, b')). apply in_map. exact H2.
+  - inversion H2; subst. exfalso. apply NI. change a with (fst (a, b)). apply in_map. exact H1.
+  - eapply IH; eassumption.
+Qed.
+
+Lemma nodup_keys_sub : forall (l l' : params), NoDup l -> incl l l' -> NoDup (map fst l') -> NoDup (map fst l).
+Proof.
+  induction l as [|[k v] l IH]; intros l' ND IN NK; cbn; [constructor|].
+  inversion ND as [|? ? NI ND']; subst. constructor.
+  - intro I. apply in_map_iff in I. destruct I as [[k' v'] [E I]]. cbn in E. subst k'.
+    assert (v' = v).
+    { eapply (nodup_keys_functional l' NK k); apply IN; [right; exact I | left; reflexivity]. }
+    subst v'. contradiction.
+  - apply (IH l'); [exact ND' | intros x I; apply IN; right; exact I | exact NK].
+Qed.
+
+Lemma nodup_of_keys : forall (l : params), NoDup (map fst l) -> NoDup l.
+Proof.
+  induction l as [|x l IH]; cbn; intro H; [constructor|]. inversion H; subst.
+  constructor; [intro I; apply H2; apply in_map; exact I | apply IH; assumption].
+Qed.
+
+Lemma params_eqb_spec : forall a b, params_eqb a b = true ->
+  incl a b /\ incl b a /\ List.length a = List.length b.
+Proof.
+  intros a b H. unfold params_eqb in H. rewrite !andb_true_iff, !forallb_forall, Nat.eqb_eq in H.
+  destruct H as [[A B] L]. split; [|split; [|exact L]]; intros x I; apply pmem_iff; auto.
+Qed.
+
+Lemma params_eqb_sym : forall a b, params_eqb a b = true -> params_eqb b a = true.
+Proof.
+  intros a b H. unfold params_eqb in *. rewrite !andb_true_iff in *. destruct H as [[A B] L].
+  split; [split; assumption|]. apply Nat.eqb_eq in L. apply Nat.eqb_eq. congruence.
+Qed.
+
+(* the variables clause does not depend on the order in which a map is listed *)
+Lemma params_spec_eqb : forall a b pat segs, params_eqb a b = true ->
+  params_spec b pat segs -> params_spec a pat segs.
+Proof.
+  intros a b pat segs E [P1 [P2 P3]]. destruct (params_eqb_spec _ _ E) as [AB [BA L]].
+  split; [intros kv I; apply P1; apply AB; exact I|]. split.
+  - intros k I. apply P2 in I. apply in_map_iff in I. destruct I as [[k' v] [EK I]]. cbn in EK. subst k'.
+    change k with (fst (k, v)). apply in_map. apply BA. exact I.
+  - apply (nodup_keys_sub a b); [|exact AB | exact P3].
+    apply (@NoDup_incl_NoDup _ b a (nodup_of_keys _ P3)); [lia | exact BA].
+Qed.
+
+(* the case table does not distinguish responses that [response_eqb] identifies *)
+Lemma obs_ok_eqb : forall T nf na m segs a b, response_eqb a b = true ->
+  obs_ok T nf na m segs b -> obs_ok T nf na m segs a.
+Proof.
+  intros T nf na m segs a b E O.
+  destruct a as [h ps|x| | |], b as [h' ps'|y| | |]; cbn in E; try discriminate; try exact O.
+  - apply andb_true_iff in E. destruct E as [EH EP]. apply Z.eqb_eq in EH. subst h'.
+    destruct O as [t [B [ET P]]]. exists t. split; [exact B|]. split; [exact ET|].
+    eapply params_spec_eqb; eassumption.
+  - destruct O as [NA [NO [NE [ND AL]]]].
+    destruct (proj1 (set_eqb_spec x y ND) E) as [NDx EQ].
+    split; [exact NA|]. split; [exact NO|]. split.
+    + intro X. subst x. destruct y as [|y0 y]; [congruence|]. apply (proj2 (EQ y0)). left. reflexivity.
+    + split; [exact NDx|]. intro m'. rewrite EQ. apply AL.
+Qed.
+
+Lemma judged_one_eqb : forall T nf na m p a b, response_eqb a b = true ->
+  judged_one T nf na m p b -> judged_one T nf na m p a.
+Proof.
+  intros T nf na m p a b E J. unfold judged_one in *. destruct (clean_path p).
+  - eapply obs_ok_eqb; eassumption.
+  - subst b. destruct nf; [apply response_eqb_nfc | apply response_eqb_nf]; exact E.
+Qed.
+
+Lemma build_is_router_of : forall nf na regs, build (new_router nf na) regs = router_of nf na regs.
+Proof. reflexivity. Qed.
+
+Lemma L_agrees_implies_prop_ok_router : forall c, r_agrees c = true -> r_prop_ok c = true.
+Proof.
+  intros c A. unfold r_agrees in A. rewrite !andb_true_iff in A. destruct A as [[REG _] REQ].
+  apply L_r_prop_ok_iff. split.
+  - intros _. apply list_eqb_reg_eq in REG. rewrite <- REG. rewrite L_registration_history. reflexivity.
+  - rewrite forallb_forall in REQ. apply Forall_forall. intros q I W.
+    specialize (REQ q I). rewrite !andb_true_iff in REQ. destruct REQ as [[_ EX] LT].
+    apply existsb_exists in EX. destruct EX as [x [IX EQ]].
+    rewrite build_is_router_of in IX. unfold table_at_req in *.
+    set (regs := firstn (qafter q) (cregs c)) in *.
+    pose proof (L_model_passes_judgement (cnf c) (cna c) regs (mkReq (qm q) (qp q) "" x [] 0) IX) as J.
+    apply response_ok_judged in J.
+    assert (J1 : judged_one (table_of regs) (cnf c) (cna c) (qm q) (qp q) (qres q)).
+    { eapply judged_one_eqb; eassumption. }
+    split; [exact J1|]. unfold lates_judged. unfold lates_agree in LT.
+    destruct (qres q) as [h ps|a| | |]; try (destruct (qlate q); [reflexivity | discriminate]).
+    rewrite forallb_forall in LT. apply Forall_forall. intros l IL.
+    apply (judged_one_eqb _ _ _ _ _ (RHandler h l) (RHandler h ps)); [|exact J1].
+    cbn. rewrite Z.eqb_refl. cbn. apply params_eqb_sym. apply LT. exact IL.
+Qed.
+
+(* ---- the same for server cases *)
+
+Lemma response_ok_eqb : forall T nf na m p a b, response_eqb a b = true ->
+  response_ok T nf na (mkReq m p "" b [] 0) = true -> response_ok T nf na (mkReq m p "" a [] 0) = true.
+Proof.
+  intros T nf na m p a b E H. apply response_ok_judged. apply response_ok_judged in H.
+  eapply judged_one_eqb; eassumption.
+Qed.
+
+Lemma lates_ok_from_agree : forall T nf na m p a L,
+  response_ok T nf na (mkReq m p "" a [] 0) = true -> lates_agree a L = true ->
+  lates_ok T nf na m p a L = true.
+Proof.
+  intros T nf na m p a L H A. unfold lates_ok, lates_agree in *. destruct a as [h ps|x| | |]; try exact A.
+  rewrite forallb_forall in *. intros l I.
+  apply (response_ok_eqb _ _ _ _ _ (RHandler h l) (RHandler h ps)); [|exact H].
+  cbn. rewrite Z.eqb_refl. cbn. apply params_eqb_sym. apply A. exact I.
+Qed.
+
+Lemma forallb2_impl : forall A B (f g : A -> B -> bool) a b,
+  (forall x y, f x y = true -> g x y = true) -> forallb2 f a b = true -> forallb2 g a b = true.
+Proof.
+  intros A B f g. induction a as [|x a IH]; destruct b as [|y b]; cbn; intros H F; try congruence.
+  apply andb_true_iff in F. destruct F as [F1 F2]. apply andb_true_iff. split; [apply H; exact F1 | apply IH; assumption].
+Qed.
+
+Lemma first_error_some : forall l e, In e l -> e <> RegOk -> exists e', first_error l = Some e'.
+Proof.
+  induction l as [|x l IH]; intros e I N; [contradiction|]. unfold first_error. cbn.
+  destruct (negb (reg_result_eqb x RegOk)) eqn:X; [eauto|].
+  destruct I as [I|I]; [subst x; destruct e; cbn in X; congruence|]. exact (IH e I N).
+Qed.
+
+Lemma response_eqb_shape_nf : forall a, response_eqb a RNotFound = true -> a = RNotFound.
+Proof. intros a H. apply response_eqb_nf. exact H. Qed.
+
+Lemma L_agrees_implies_prop_ok_server : forall s, s_agrees s = true -> s_prop_ok s = true.
+Proof.
+  intros s A. unfold s_agrees in A. rewrite !andb_true_iff in A. destruct A as [[[[ST _] _] _] REQ].
+  unfold s_prop_ok. apply andb_true_iff. split.
+  - (* how every Start ended *)
+    revert ST. apply forallb2_impl. intros i o SA. unfold start_ok.
+    destruct (negb (server_in_scope s i)); [reflexivity|].
+    rewrite L_start_is_spec in SA. destruct (has_start i (sevents s)); cbn [negb].
+    + unfold spec_start, start_server in SA. fold (user_regs s i) in SA.
+      set (c := nth i (scfgs s) default_cfg) in *.
+      pose proof (L_bind_regs (sc_nf c) (sc_na c || sc_cors c) (user_regs s i)) as B.
+      destruct (bind_routes (new_router (sc_nf c) (sc_na c || sc_cors c)) (user_regs s i)) as [r|e].
+      * destruct B as [_ [AO _]]. rewrite (first_error_none _ AO). destruct o; cbn in SA; congruence.
+      * destruct B as [N [pre [g [post [E [_ R]]]]]].
+        assert (IN : In e (reg_results [] (user_regs s i))).
+        { rewrite E, reg_results_app. apply in_or_app. right. cbn. left. exact R. }
+        destruct (first_error_some _ _ IN N) as [e' FE]. rewrite FE. destruct o; cbn in SA; congruence.
+    + destruct o; cbn in SA; congruence.
+  - (* every request *)
+    rewrite forallb_forall in *. intros q I. specialize (REQ q I).
+    destruct (start_of (wstarts (run opt_real (scfgs s) (stables s) (sevents s))) (sqs q)) as [[r|e]|] eqn:SO;
+      try discriminate.
+    rewrite !andb_true_iff in REQ. destruct REQ as [[EX _] LT].
+    apply existsb_exists in EX. destruct EX as [x [IX EQ]].
+    unfold sreq_ok. destruct (negb (server_in_scope s (sqs q))); [reflexivity|].
+    set (c := nth (sqs q) (scfgs s) default_cfg) in *. unfold user_regs.
+    destruct (L_server_dispatch _ _ _ _ _ SO) as [E [AO [_ _]]]. fold c in E.
+    set (regs := spec_regs (stables s) (before_start (sqs q) (sevents s)) (sqs q)) in *.
+    rewrite (first_error_none _ AO). apply andb_true_iff.
+    unfold sresponse_ok, slates_ok, slates_agree, sserve_allowed in *. destruct (sc_cors c) eqn:CORS.
+    + cbn [andb] in IX. destruct (sqm q =? "OPTIONS").
+      * destruct IX as [IX|[]]. subst x. destruct (sqres q) as [a|]; cbn in EQ; [discriminate|].
+        split; [reflexivity | exact LT].
+      * apply in_map_iff in IX. destruct IX as [y [EY IY]]. subst x r. rewrite orb_true_r in IY.
+        pose proof (L_model_passes_judgement (sc_nf c) true regs (mkReq (sqm q) (sqp q) "" y [] 0) IY) as J.
+        destruct (sqres q) as [a|]; cbn [sresponse_eqb] in EQ; [|discriminate].
+        destruct y as [h ps|al| | |]; cbn [cors_view] in EQ.
+        -- destruct a as [h' ps'|?| | |]; try discriminate EQ.
+           assert (RA : response_ok (table_of regs) (sc_nf c) true (mkReq (sqm q) (sqp q) "" (RHandler h' ps') [] 0) = true)
+             by (eapply response_ok_eqb; eassumption).
+           split; [exact RA | apply lates_ok_from_agree; assumption].
+        -- exfalso. unfold response_ok in J. cbn [qp qm qres] in J.
+           destruct (clean_path (sqp q)); [|destruct (sc_nf c); discriminate].
+           destruct (candidates _ _ _); [|discriminate]. destruct (allow_spec _ _ _); discriminate.
+        -- apply response_eqb_nf in EQ. subst a. rewrite J. split; [apply orb_true_r | exact LT].
+        -- apply response_eqb_nf in EQ. subst a. rewrite J. split; [reflexivity | exact LT].
+        -- apply response_eqb_nfc in EQ. subst a. split; [exact J | exact LT].
+    + cbn [andb] in IX. apply in_map_iff in IX. destruct IX as [y [EY IY]]. subst x r. rewrite orb_false_r in IY.
+      pose proof (L_model_passes_judgement (sc_nf c) (sc_na c) regs (mkReq (sqm q) (sqp q) "" y [] 0) IY) as J.
+      destruct (sqres q) as [a|]; cbn [sresponse_eqb] in EQ; [|discriminate].
+      assert (RA : response_ok (table_of regs) (sc_nf c) (sc_na c) (mkReq (sqm q) (sqp q) "" a [] 0) = true)
+        by (eapply response_ok_eqb; eassumption).
+      split; [exact RA | apply lates_ok_from_agree; assumption].
+Qed.
+
+Lemma L_agrees_implies_prop_ok : forall c, agrees c = true -> prop_ok c = true.
+Proof.
+  intros [c|s]; cbn; [apply L_agrees_implies_prop_ok_router | apply L_agrees_implies_prop_ok_server].
+Qed.
